@@ -91,18 +91,16 @@ theorem run_frame (sch : Schema) (inj : Option Inj) (p : Prog) :
     · rename_i s1 e hb
       have h1 := ihb s s1 (some e) hb
       split at h
-      · simp at h; obtain ⟨rfl, _⟩ := h; exact h1
-      · split at h
-        · rename_i s2 hh
-          have h2 := ihh s1 s2 none hh
-          simp at h; obtain ⟨rfl, _⟩ := h
-          refine ⟨by omega, fun heq => ?_⟩
-          rw [h2.2 (by omega), h1.2 (by omega)]
-        · rename_i s2 e2 hh
-          have h2 := ihh s1 s2 (some e2) hh
-          simp at h; obtain ⟨rfl, _⟩ := h
-          refine ⟨by omega, fun heq => ?_⟩
-          rw [h2.2 (by omega), h1.2 (by omega)]
+      · rename_i s2 hh
+        have h2 := ihh s1 s2 none hh
+        simp at h; obtain ⟨rfl, _⟩ := h
+        refine ⟨by omega, fun heq => ?_⟩
+        rw [h2.2 (by omega), h1.2 (by omega)]
+      · rename_i s2 e2 hh
+        have h2 := ihh s1 s2 (some e2) hh
+        simp at h; obtain ⟨rfl, _⟩ := h
+        refine ⟨by omega, fun heq => ?_⟩
+        rw [h2.2 (by omega), h1.2 (by omega)]
 
 /-! ## per-operation commit structure -/
 def extrasErr : List Extra → Option Err
@@ -110,6 +108,7 @@ def extrasErr : List Extra → Option Err
   | .unknown :: _ => some .typeError
   | .badProp :: _ => some .attrError
   | .okProp :: ex => extrasErr ex
+  | .fk _ _ :: ex => extrasErr ex
 
 def allOk (kw : List (Nat × In)) : Bool := kw.all fun a => a.2.isOk
 
@@ -141,16 +140,39 @@ theorem run_validates (sch inj) (kw : List (Nat × In)) (k : Prog) (s : St) :
   · rw [if_pos h, run_validates_ok _ _ _ _ _ h]
   · rw [if_neg h, run_validates_bad _ _ _ _ _ (by simpa using h)]
 
-theorem run_extras (sch inj) (ex : List Extra) (k : Prog) (s : St) :
-    run sch inj (extras ex k) s =
+/-- no ForeignKey-by-object keyword (those write the row by themselves) -/
+def noFk : List Extra → Bool
+  | [] => true
+  | .fk _ _ :: _ => false
+  | _ :: ex => noFk ex
+
+theorem run_extras (sch inj) (c id : Nat) (ex : List Extra) (k : Prog) (s : St) (hfk : noFk ex = true) :
+    run sch inj (extras sch c id ex k) s =
       match extrasErr ex with
       | none => run sch inj k s
       | some e => (s, some e) := by
   induction ex with
   | nil => simp [extras, extrasErr]
   | cons a ex ih =>
-    cases a <;> simp only [extras, List.foldr_cons, run, extrasErr] at ih ⊢
-    exact ih
+    cases a <;> simp only [extras, List.foldr_cons, run, extrasErr, noFk] at ih hfk ⊢
+    · exact ih hfk
+    · cases hfk
+
+theorem run_extrasPure (sch inj) (ex : List Extra) (k : Prog) (s : St) :
+    run sch inj (extrasPure ex k) s =
+      match extrasErr ex with
+      | none => run sch inj k s
+      | some e => (s, some e) := by
+  induction ex with
+  | nil => simp [extrasPure, extrasErr]
+  | cons a ex ih =>
+    cases a <;> simp only [extrasPure, List.foldr_cons, run, extrasErr] at ih ⊢
+    · exact ih
+    · exact ih
+
+theorem run_precheck (sch inj) (ex : List Extra) (k : Prog) (s : St) :
+    run sch inj (precheck ex k) s = if hasUnknown ex = true then (s, some .typeError) else run sch inj k s := by
+  unfold precheck; split <;> simp [run]
 
 /-- a statement followed only by in-memory steps and events: fails without any effect or not at all -/
 theorem run_stmt_tail (sch inj) (q : Stmt) (k : Prog) (s s' : St) (e : Err)
@@ -165,20 +187,28 @@ theorem run_stmt_tail (sch inj) (q : Stmt) (k : Prog) (s s' : St) (e : Err)
       rw [h] at this; simp at this
 
 theorem setProg_noop (sch inj) (c id : Nat) (kw : List (Nat × In)) (ex : List Extra) (s s' : St) (e : Err)
-    (hlazy : (clsOf sch c).lazy = true → extrasErr ex = none)
+    (hfk : noFk ex = true)
+    (hlazy : (clsOf sch c).lazy = true → hasUnknown ex = true ∨ extrasErr ex = none)
     (h : run sch inj (setProg sch c id kw ex .done) s = (s', some e)) : s'.core = s.core := by
   unfold setProg at h
   split at h
   · rename_i hl
-    have hex := hlazy hl
     simp only [run, run_validates] at h
     split at h
-    · simp only [run, run_extras, hex] at h
-      split at h <;> simp [run] at h
+    · rw [run_precheck] at h
+      split at h
+      · simp at h; obtain ⟨rfl, _⟩ := h; rfl
+      · rename_i hu
+        have hex : extrasErr ex = none := by
+          cases hlazy hl with
+          | inl h1 => exact absurd h1 hu
+          | inr h2 => exact h2
+        simp only [run, run_extras _ _ _ _ _ _ _ hfk, hex] at h
+        split at h <;> simp [run] at h
     · simp at h; obtain ⟨rfl, _⟩ := h; rfl
   · simp only [run, run_validates] at h
     split at h
-    · rw [run_extras] at h
+    · rw [run_extras _ _ _ _ _ _ _ hfk] at h
       split at h
       · split at h
         · simp [run] at h
@@ -212,7 +242,10 @@ theorem createProg_noop (sch inj) (c : Nat) (id? : Option Nat) (missing : Bool) 
   · simp [run] at h; obtain ⟨rfl, _⟩ := h; rfl
   · rw [run_validates] at h
     split at h
-    · rw [run_extras] at h
+    · rw [run_precheck] at h
+      split at h
+      · simp at h; obtain ⟨rfl, _⟩ := h; rfl
+      rw [run_extrasPure] at h
       split at h
       · simp only [run] at h
         split at h
